@@ -81,6 +81,7 @@ type World struct {
 	natives []map[string]bool        // per chain: native denominations minted at reset (supply must stay constant)
 	hoplike bool                     // the world contains hop-like native denominations (known findings)
 	nativeList [][]string
+	recvEnabled []bool
 }
 
 var chainLetters = []string{"A", "B", "C"}
@@ -157,6 +158,7 @@ func NewWorld(natives [][]string, hoplike bool) *World {
 	// native denominations
 	for i, ch := range w.chains {
 		w.donated = append(w.donated, map[string]sdkmath.Int{})
+		w.recvEnabled = append(w.recvEnabled, true)
 		nat := map[string]bool{ibctesting.SecondaryDenom: true}
 		ctx := ch.GetContext()
 		for _, d := range natives[i] {
@@ -184,6 +186,19 @@ func (w *World) real(name string) string {
 		return a
 	}
 	return name
+}
+
+// plainReceiver: the name is a decodable address that the bank of chain c does not block
+func (w *World) plainReceiver(c int, name string) bool {
+	a, ok := w.book[name]
+	if !ok {
+		return false
+	}
+	addr, err := sdk.AccAddressFromBech32(a)
+	if err != nil {
+		return false
+	}
+	return name == "mod:transfer" || !w.chains[c].GetSimApp().BankKeeper.BlockedAddr(addr)
 }
 
 func (w *World) sym(addr string) string {
@@ -460,6 +475,7 @@ func (w *World) Exec(in M, mon *Monitors) any {
 		ch := w.chains[c]
 		ch.GetSimApp().TransferKeeper.SetParams(ch.GetContext(), transfertypes.NewParams(boolean(in, "send"), boolean(in, "recv")))
 		ch.NextBlock()
+		w.recvEnabled[c] = boolean(in, "recv")
 		return M{"r": "ok"}
 	case "banksend":
 		return w.execBankSend(in, mon)
